@@ -26,7 +26,7 @@ pub async fn get_request_addr(stream: &mut TcpStream) -> anyhow::Result<Address>
         match next {
             Proxy::Http(address) => Ok(address),
             Proxy::Https(address) => {
-                let _ = stream.read(&mut [0; 1024]).await?;
+                skip_request_head(stream).await?;
                 stream.write_all(b"HTTP/1.1 200 Connection established\r\n\r\n").await?;
                 Ok(address)
             }
@@ -44,6 +44,31 @@ pub async fn get_request_addr(stream: &mut TcpStream) -> anyhow::Result<Address>
         }
     })
     .await?
+}
+
+/// Consumes the CONNECT request through the empty line that ends its header block, and nothing after it.
+async fn skip_request_head(stream: &mut TcpStream) -> Result<(), anyhow::Error> {
+    const END: &[u8] = b"\r\n\r\n";
+    let mut buf = [0; 1024];
+    let mut tail: Vec<u8> = Vec::with_capacity(END.len() - 1 + buf.len());
+    loop {
+        let len = stream.peek(&mut buf).await?;
+        if len == 0 {
+            bail!("connection closed inside the CONNECT request");
+        }
+        let seen = tail.len();
+        tail.extend_from_slice(&buf[..len]);
+        let consume = match tail.windows(END.len()).position(|w| w == END) {
+            Some(pos) => pos + END.len() - seen,
+            None => len,
+        };
+        stream.read_exact(&mut buf[..consume]).await?;
+        if consume < len || tail.ends_with(END) {
+            return Ok(());
+        }
+        let keep = tail.len().min(END.len() - 1);
+        tail.drain(..tail.len() - keep);
+    }
 }
 
 async fn recognize(stream: &mut TcpStream) -> Result<Proxy, anyhow::Error> {
